@@ -271,6 +271,28 @@ def run(ctx):
             if not held:
                 run.finding(Finding(R2, w.id, "fee bit tests FeeFields::fee() > 0: a non-zero fee_shift with zero fee is dropped by the binary form", site=w.loc()))
 
+    # ... likewise the bits of SlateOptStructs: an optional struct that is present is announced and written, whatever
+    # it holds (the reader turns "not announced" into None: Some([]) and None are different slates - JSON keeps them apart)
+    w = impl_fn(db, "grin_core::ser::Writeable", "SlateOptStructs", "write")
+    if w:
+        PURE = ("Option::<T>::is_some", "Option::<T>::is_none", "Option::<T>::as_ref", "Deref::deref", "Clone::clone", "Option::<&T>::cloned", "Option::<&T>::copied")
+        for m, b in bit_sets(w):
+            narrowing = set()
+            for gb, gt in w.calls():
+                gname = gt.get("f") or ""
+                if not gname.endswith(("is_some", "is_none")):
+                    continue
+                g = cfg.call_guard(w, gb)
+                if not ((g.ok and cfg.must_pass(w, g.ok, {b})[0]) or (g.fail and cfg.must_pass(w, g.fail, {b})[0])):
+                    continue
+                for y in vf.producers(w, gt["a"][0]) | vf.origins(w, gt["a"][0]):
+                    if y[0] in ("call", "mutcall") and not y[1].endswith(PURE):
+                        narrowing.add(y[1])
+            held = not narrowing
+            run.instance(R2, {"type": "SlateOptStructs", "mask": "0x%02x" % m, "obligation": "the bit is set whenever the optional struct is present (a pure presence test of the field)", "other calls in the condition": sorted(narrowing)}, held=held)
+            if not held:
+                run.finding(Finding(R2, w.id, "SlateOptStructs flag 0x%02x is not a pure presence test (%s): a present but empty value is written as absent, and the binary / slatepack forms of a slate decode to a different slate than its JSON form" % (m, ", ".join(sorted(x.split("::")[-1] for x in narrowing))), site=w.loc()))
+
     R3 = "C08.R3"
     run.rule(R3, "enum tables are mutually inverse (SlateStateV4 <-> u8, <-> strings, <-> SlateState; OutputFeatures <-> OutputFeaturesV4)", floor=4)
     # SlateStateV4 <-> u8
